@@ -33,12 +33,14 @@ def run(chk):
     chk.rule('C09-R4', 'component c of a position/velocity store reads component c; velocity-bias formula; the three tracer blocks are alpha-equivalent', 8)
     chk.rule('C09-R5', 'RSD (box observer): only z is re-assigned, to wrap(z + vz/velz2kms, L); wrap maps into [-L/2, L/2)', 8)
     chk.rule('C09-R6', 'galaxy mass and id are the host\'s (same row as the position)', 6)
-    chk.rule('C09-R7', 'assembly: concatenate(cent[k], sat[k]) for every column and the id; Ncent = number of centrals; tracer dicts mapped by position', 3)
+    chk.rule('C09-R7', 'assembly: concatenate(cent[k], sat[k]) for every column and the id; Ncent = number of centrals; tracer dicts mapped by position; fast_concatenate copies array1 then array2 completely', 8)
     chk.assume('the numerical form of the occupation functions and slice end-points (<= at a zero-width slice) are not decided')
     for name in ('gen_cent', 'gen_sats'):
         one(chk, Pass2(src, name), name)
     wrap_rule(chk)
     assembly(chk)
+    from .c10 import concat
+    concat(chk, R6='C09-R7', R1='C09-R7')
 
 
 def one(chk, P, name):
